@@ -284,6 +284,7 @@ def _dict(eng, args, kwargs, node):
 TYPE_TAGS = {
     'int': (INT, BOOL), 'bool': (BOOL,), 'float': (REAL,), 'str': (STR,), 'list': ('list',), 'tuple': ('tuple',),
     'dict': ('dict', 'defaultdict', 'Counter', 'OrderedDict'), 'set': ('set',), 'NoneType': ('none',),
+    'bytes': ('bytes',), 'object': ('object',), 'frozenset': ('frozenset',),
 }
 
 
@@ -470,6 +471,9 @@ def make_builtins():
     for name, fn in [('int', _int), ('float', _float), ('str', _str), ('bool', _bool), ('list', _list),
                      ('tuple', _tuple), ('set', _set), ('dict', _dict)]:
         b[name] = TypeObj(name, fn, TYPE_TAGS[name])
+    b['bytes'] = TypeObj('bytes', lambda e, a, k, n: a[0] if a else '', TYPE_TAGS['bytes'])
+    b['object'] = TypeObj('object', lambda e, a, k, n: Obj('object', {}), TYPE_TAGS['object'])
+    b['frozenset'] = TypeObj('frozenset', lambda e, a, k, n: frozenset(_set(e, a, k, n)), TYPE_TAGS['frozenset'])
     for name in ['Exception', 'ValueError', 'TypeError', 'KeyError', 'IndexError', 'AttributeError', 'OSError',
                  'IOError', 'StopIteration', 'ZeroDivisionError', 'OverflowError', 'NotImplementedError',
                  'RuntimeError', 'AssertionError', 'FileNotFoundError', 'KeyboardInterrupt', 'BaseException',
